@@ -60,7 +60,7 @@ def _main(prop, mod, modname, tier, seed, replay, ncases, no_prove, workdir, t0)
     if no_prove:
         prove = {"ok": True, "theorems": [], "assumptions": {}, "obligations": 0, "discharged": 0, "cmd": "skipped", "log": ""}
     else:
-        prove = fw.coq_prove(prop, clean=False) if tr["ok"] else {
+        prove = fw.coq_prove(prop, clean=False, extra_targets=fw.import_targets(mod.COQ_IMPORTS)) if tr["ok"] else {
             "ok": False, "theorems": [], "assumptions": {}, "obligations": 0, "discharged": 0, "cmd": "translate",
             "log": tr.get("error", ""), "error": "translator stopped: " + tr.get("error", "")}
     chk_ok, chk_out = (True, "")
